@@ -161,6 +161,42 @@ func registerIntrinsics(e *Engine) {
 		p.yield("yield")
 		return nil
 	}
+	// verifInSet(c byte, ranges string) bool: c lies in one of the [lo,hi] byte pairs
+	// of the concrete ranges string; one Boolean term, no forking.
+	in["verifInSet"] = func(p *Path, caller *frame, pos token.Pos, args []Value) Value {
+		rs := concStr(p, args[1], "verifInSet ranges")
+		if len(rs)%2 != 0 {
+			p.abortf(abortUnsupported, "verifInSet: ranges string must have even length")
+		}
+		c := args[0].(*Term)
+		out := p.ts.Bool(false)
+		for i := 0; i+1 < len(rs); i += 2 {
+			if rs[i] == rs[i+1] {
+				out = p.ts.Or(out, p.byteEq(c, p.byteConst(rs[i])))
+			} else {
+				out = p.ts.Or(out, p.byteInRange(c, rs[i], rs[i+1]))
+			}
+		}
+		return out
+	}
+	// verifAllInSet(s string, ranges string) bool: every byte of s in the set; no forking
+	in["verifAllInSet"] = func(p *Path, caller *frame, pos token.Pos, args []Value) Value {
+		rs := concStr(p, args[1], "verifAllInSet ranges")
+		s := args[0].(StringV)
+		all := p.ts.Bool(true)
+		for _, c := range p.strBytes(s) {
+			one := p.ts.Bool(false)
+			for i := 0; i+1 < len(rs); i += 2 {
+				if rs[i] == rs[i+1] {
+					one = p.ts.Or(one, p.byteEq(c, p.byteConst(rs[i])))
+				} else {
+					one = p.ts.Or(one, p.byteInRange(c, rs[i], rs[i+1]))
+				}
+			}
+			all = p.ts.And(all, one)
+		}
+		return all
+	}
 	// taint
 	in["verifTaintString"] = func(p *Path, caller *frame, pos token.Pos, args []Value) Value {
 		s := args[0].(StringV)
